@@ -41,7 +41,7 @@ theorem lookup_isSome_iff {α : Type} {β : Type} [BEq α] [LawfulBEq α] (l : L
   | cons y ys ih =>
     obtain ⟨y1, y2⟩ := y
     by_cases h : k = y1
-    · subst h; simp [List.lookup_cons]
+    · subst h; simp
     · have hb : (k == y1) = false := by simpa using h
       simp only [List.lookup_cons, hb, List.map_cons, List.mem_cons, h, false_or]
       exact ih
@@ -148,14 +148,14 @@ theorem isLits_modPat (m : List Str) (h : ∀ c ∈ m, ValidComp c) : IsLits (mo
   exact ⟨c, rfl, h c hc⟩
 
 theorem wild_unstructured (q : Pat) (h : IsLits q) : (q ++ [Part.star]).unstructured = false := by
-  simp [Pat.unstructured, List.dropLast_concat, h.no_star]
+  simp [Pat.unstructured, h.no_star]
 
 theorem wild_endsDotStar (q : Pat) (h : q ≠ []) : (q ++ [Part.star]).endsDotStar = true := by
   have : 1 ≤ q.length := by
     cases q with
     | nil => exact absurd rfl h
     | cons _ _ => simp
-  simp [Pat.endsDotStar, List.getLast?_concat]
+  simp [Pat.endsDotStar]
   omega
 
 theorem lits_unstructured (q : Pat) (h : IsLits q) : q.unstructured = false := by
@@ -197,7 +197,7 @@ theorem anc_wild (q : Pat) (hq : IsLits q) (j : Nat) :
   | cons a q => simp
 
 theorem anc_dropLast (q : Pat) (j : Nat) : (anc q j).dropLast = q.take (j + 1) := by
-  simp [anc, List.dropLast_concat]
+  simp [anc]
 
 /-! ## a proper ancestor sorts strictly before its descendant -/
 
@@ -502,7 +502,7 @@ theorem wild_step (g : Opts) (secs : Sections) (hv : ValidSecs secs) (pre post :
     have : q ++ [Part.star] ++ [Part.star] ∉ pre := by
       intro h
       have := ((mem_wildKeys secs _).mp (hpre_sub _ h)).2.1
-      simp [Pat.unstructured, List.dropLast_concat, Part.isStar] at this
+      simp [Pat.unstructured, Part.isStar] at this
     rw [if_neg this]
   have hok : CacheOK g secs (wildCache g secs pre) q n := by
     rw [hC]
